@@ -1057,6 +1057,8 @@ class Polyhedron(Shape3D):
         )
         hoomd_dict = _map_dict_keys(data, key_mapping=_hoomd_dict_mapping)
         hoomd_dict["sweep_radius"] = 0.0
+        # Copy the centered vertices: the internal array is moved back below.
+        hoomd_dict["vertices"] = np.array(hoomd_dict["vertices"])
 
         self.centroid = old_centroid
         return hoomd_dict
